@@ -111,6 +111,25 @@ def h_precedence(option_section_in_file, two_options):
     return h
 
 
+def h_two_systems(I):
+    """two System-like objects built one after the other from the SAME rc file; only the first has an option"""
+    import andes.system as SY
+    from andes.core.common import Config
+    path = os.path.join(core.workdir(), 'two_systems.rc')
+    with open(path, 'w') as f:
+        f.write('[TDS]\ntf = 11\n')
+    first_has_option = bool(I.boolean('first_system_has_option'))
+    s1 = NS(options={'config_option': ['TDS.tf = 22']} if first_has_option else {}, _config_object=SY.load_config_rc(path))
+    SY.System._update_config_object(s1)
+    s2 = NS(options={}, _config_object=SY.load_config_rc(path))
+    SY.System._update_config_object(s2)
+    c1, c2 = Config('TDS'), Config('TDS')
+    c1.load(s1._config_object); c1.add(tf=20.0)
+    c2.load(s2._config_object); c2.add(tf=20.0)
+    return [('the first system uses its option, else the file value', c1.tf == (22 if first_has_option else 11)),
+            ('a later system built from the same file is not affected by the options of an earlier one', c2.tf == 11)]
+
+
 # ---------------------------------------------------------------- C. Config.check over every declared _alt
 def all_configs():
     ss = core.new_system()
@@ -245,6 +264,8 @@ def job(spec):
         return crosshair_results([chrun.job(arg)])
     if kind == 'prec':
         return H.run(f'config precedence [option section in file={arg[0]}, two options={arg[1]}]', h_precedence(*arg), region=lambda v, c: c)
+    if kind == 'two':
+        return H.run('two systems from one rc file', h_two_systems, region=lambda v, c: c)
     if kind == 'alt':
         return job_alt(arg)
     if kind == 'lang':
@@ -269,7 +290,7 @@ def main():
               'float(repr(x)) == x is trusted (Python)', 'language model of int()/float() restricted to ASCII')
     ck.out('reading/writing the rc file itself (file I/O)', 'values of ~400 fields are covered structurally, not one by one')
     jobs = [('ch', j) for j in crosshair_jobs(to)]
-    jobs += [('prec', (a, b)) for a in (True, False) for b in (True, False)]
+    jobs += [('prec', (a, b)) for a in (True, False) for b in (True, False)] + [('two', 0)]
     alts = []
     for owner, cfg in all_configs():
         for key, alt in cfg._alt.items():
